@@ -271,6 +271,9 @@ pub fn run(cfg: &Cfg, rep: &mut Rep) {
     let weeks = [0u32, 1, 2, 1023, 1024, 1025, 2047, 2048, 2049, 4096, 65535, 65536, wmax - 1, wmax, wmax / 2];
     let nss = [0u64, 1, NS_W as u64 - 1, NS_W as u64, NS_W as u64 + 1, NS_D as u64, 2 * NS_W as u64 + 5, NPC as u64 - 1, NPC as u64, NPC as u64 + 1, u64::MAX, u64::MAX - 1, 1 << 63];
     for s in SCALES {
+        if cfg.fuzz {
+            break;
+        }
         for &w in &weeks {
             for &ns in &nss {
                 i += 1;
@@ -283,6 +286,9 @@ pub fn run(cfg: &Cfg, rep: &mut Rep) {
     // totals around the binary and decimal thresholds a 64-bit shortcut could trip on, split as (week, ns of week) with the
     // nanoseconds both below one week (canonical) and far above it
     for tot in [1i128 << 63, 1i128 << 64, (1i128 << 64) - 1, 1_000_000_000_000_000_000, 10_000_000_000_000_000_000, NPC, 2 * NPC, 6 * NPC, 1i128 << 53, 1i128 << 62] {
+        if cfg.fuzz {
+            break;
+        }
         for dlt in [-NS_W, -NS_D, -NS_S, -1i128, 0, 1, NS_S, NS_D, 3 * NS_D, 4 * NS_D, NS_W - 1, NS_W, NS_W + NS_D] {
             let t = tot + dlt;
             for s in SCALES {
@@ -303,6 +309,9 @@ pub fn run(cfg: &Cfg, rep: &mut Rep) {
         }
     }
     for s in CTR {
+        if cfg.fuzz {
+            break;
+        }
         for &c in &nss {
             i += 1;
             if i % n == sh {
@@ -322,7 +331,7 @@ pub fn run(cfg: &Cfg, rep: &mut Rep) {
     }
     for y in 1..=9999i32 {
         i += 1;
-        if i % n == sh {
+        if i % n == sh && !cfg.fuzz {
             let s = SCALES[(y % 9) as usize];
             check_doy(rep, y, 1.0, s);
             let ylen = if cal::is_leap(y as i64) { 366.0 } else { 365.0 };
